@@ -158,6 +158,9 @@ def run(c):
         byid = {b["id"]: b for b in batch}
         out = []
         for v in r.printed:
+            if v["kind"] == "phantom":
+                c.extra["phantom_handoffs"] = c.extra.get("phantom_handoffs", 0) + 1
+                continue
             out.append((byid[v["script"]], v))
         return out
 
